@@ -10,10 +10,29 @@ import (
 type logical func(iterator, string, interface{}, interface{}) bool
 
 var logicalFuncs = [][]logical{
-	{cmpBooleanBoolean, nil, nil, nil},
-	{nil, cmpNumericNumeric, cmpNumericString, cmpNumericNodeSet},
-	{nil, cmpStringNumeric, cmpStringString, cmpStringNodeSet},
-	{nil, cmpNodeSetNumeric, cmpNodeSetString, cmpNodeSetNodeSet},
+	{cmpBooleanBoolean, cmpWithBoolean, cmpWithBoolean, cmpWithBoolean},
+	{cmpWithBoolean, cmpNumericNumeric, cmpNumericString, cmpNumericNodeSet},
+	{cmpWithBoolean, cmpStringNumeric, cmpStringString, cmpStringNodeSet},
+	{cmpWithBoolean, cmpNodeSetNumeric, cmpNodeSetString, cmpNodeSetNodeSet},
+}
+
+// cmpWithBoolean compares a boolean with a value of another type. For = and != the other
+// value is converted to a boolean; for the relational operators both are converted to
+// numbers (true is 1, false is 0), a node-set being converted to a boolean first.
+func cmpWithBoolean(t iterator, op string, m, n interface{}) bool {
+	num := func(v interface{}) float64 {
+		switch v.(type) {
+		case float64, string:
+			if op != "=" && op != "!=" {
+				return asNumber(t, v)
+			}
+		}
+		if asBool(t, v) {
+			return 1
+		}
+		return 0
+	}
+	return cmpNumberNumberF(op, num(m), num(n))
 }
 
 // number vs number
